@@ -76,6 +76,9 @@ def _master_screen_file(ctx, rep):
 
 
 def check(ctx, rep):
+    from ..optargs import check as _optargs
+    _optargs(ctx, rep, ['pcbasic/basic/display/textscreen.py', 'pcbasic/basic/console.py', 'pcbasic/basic/display/display.py'], 3,
+             {('TextScreen.screen_fn_', 'want_attr'): 'the third argument of SCREEN(row, col, z) is a flag: any non-zero z asks for the attribute, 0 and omitted both ask for the character'})
     from . import c35 as _c35, _share as _sh
     _sh.share(ctx, rep, _c35, ('scroll.',), 'scrolling moves exactly the rows of the region: the character rows, the displayed text and the pixels agree on the row dropped and on the blank row')
     _master_screen_file(ctx, rep)
@@ -201,7 +204,7 @@ def check(ctx, rep):
            len(p) == 1 and [norm(a_) for a_ in p[0].args][:3] == ['self.current_row', 'self.current_col', 'char'], '', ctx.where(wc))
 
 
-def variants(ctx):
+def _variants0(ctx):
     Va = mu.Variant
 
     def in_fn(f_name, f):
@@ -235,3 +238,10 @@ def _drop_last_wrap(fn):
     calls = [s for s in fn.body if isinstance(s, ast.Expr) and isinstance(s.value, ast.Call) and 'self._wrap_around_and_scroll_as_needed' in norm(s)]
     fn.body.remove(calls[-1])
     return True
+
+
+def variants(ctx):
+    return _variants0(ctx) + [
+        mu.Variant('cls-zero-treated-as-omitted', 'break', 'pcbasic/basic/display/display.py',
+                   lambda tree: (lambda fn: mu.replace_expr(fn, mu.text_is('val is None'), 'not val'))(mu.find_def(tree, 'Display.cls_')), expect='arguments.zero-is-not-omitted'),
+    ]
